@@ -21,3 +21,14 @@ class ConstRule(Rule):
 
     def satisfied(self, what, inquiry=None):
         return self.value
+
+
+class Duck:
+    """NOT a Rule: an unrelated object that merely has a method called `satisfied`"""
+
+    def satisfied(self, what, inquiry=None):
+        return True
+
+
+class DuckChild(Duck):
+    """inherits the method; still not a Rule"""
